@@ -140,10 +140,10 @@ def run(ctx):
 
   # 2. spec -> code
   if quick:
-    plan = [("EX_edges_C1.cfg", [0]), ("EX_edges_C2s.cfg", [1]), ("EX_edges_C3d1.cfg", [2])]
+    plan = [("EX_edges_C1.cfg", [0]), ("EX_edges_C2s.cfg", [1]), ("EX_edges_C3d1q.cfg", [2])]
   else:
     plan = [("EX_edges_C1.cfg", [0, 1, 2, 3]), ("EX_edges_C2seg.cfg", [2]),
-            ("EX_edges_C2.cfg", [1, 0, 3]), ("EX_edges_C3d1.cfg", [2, 1]),
+            ("EX_edges_C2.cfg", [1, 0]), ("EX_edges_C3d1.cfg", [3]),
             ("EX_edges_C3.cfg", [0])]
   for cfg, variants in plan:
     r = tlc.run(SPEC, "MCHandshake", cfg, workers=1, coverage=False, tag="C09", timeout=1500)
